@@ -11,7 +11,8 @@ Space   : (a) every labelled graph on n <= 3 (quick) / n <= 4 (thorough) points:
           ndarray / PointCloud / LabelledPointUndirectedGraph, 2-D and 3-D, pairwise distinct points.
 Ops     : with_labels (every non-empty label subset: original order, every permuted order, bare string),
           without_labels (every subset incl. all, reversed request, bare string), get_label, add_label (new name
-          and every existing name x every index subset; list and ndarray), remove_label, each also with an
+          and every existing name x every index subset; boundary index forms: negative / mixed / repeated indices,
+          int64 / int32 arrays, a python int, boolean masks, one past either end -> IndexError), remove_label, each also with an
           unknown label; read-derive-read chains (read a label, derive a group by copy / add_label / remove_label /
           affine apply / in-place point edit, read every label of both again); thorough chains them (depth 2 on every variant A root with n <= 3).
           Labellers: every size (exactly one accepted, every other -> LabellingError), pure re-indexing, every
@@ -192,6 +193,8 @@ def _digest_graph(r):
 # ------------------------------------------------------------------------------------------------
 def lab_points(n, d, seed):
     """n pairwise distinct points (jittered lattice: any two differ by >= 0.6 in some coordinate)."""
+    if n == 0:
+        return np.zeros((0, d))
     r = rs(seed, "c15lab", n, d)
     side = int(np.ceil(n ** (1.0 / d) - 1e-9))
     while side ** d < n:
@@ -453,6 +456,10 @@ class C15(Check):
                     out.append(("with-perm", p, T))
         for nm in names:
             out.append(("with-str", nm, T))
+        out.append(("with-empty", (), T))  # boundary: a request of size 0
+        out.append(("with-dup", (names[0], names[0]), T))  # boundary: the same label requested twice
+        if k >= 2:
+            out.append(("with-dup", (names[0], names[1], names[0]), T))
         out.append(("with-unknown", (UNKNOWN,), T))
         out.append(("with-unknown", (names[0], UNKNOWN), T))
         for s in subsets:
@@ -473,9 +480,29 @@ class C15(Check):
             out.append(("add", new, idx, "list", T))
         for idx in sorted(set([(), tuple(range(n)), (n - 1,), tuple(reversed(range(n)))])):
             out.append(("add", new, idx, "array", T))
+        # boundary index forms (everything numpy's `mask[indices] = True` accepts on the unchanged tree): first / last
+        # point by its negative index, negative and non-negative mixed, the same point twice (also under both of its
+        # names), every point negatively, unsorted; one past either end of the index range must raise IndexError
+        bsets = sorted(set([(-1,), (-n,), (0, -1), (n - 1, -1), (0, 0), (n - 1, 0), tuple(range(-1, -n - 1, -1))]))
+        oob = [(n,), (-n - 1,), (0, n), (-1, -n - 1)]
+        for idx in bsets + oob:
+            out.append(("add", new, idx, "list", T))
+            if rich:
+                out.append(("add", new, idx, "array", T))
+        for idx in [(-1,), (0, n - 1), (n,)]:
+            out.append(("add", new, idx, "int32", T))
+        for i in sorted(set([0, n - 1, -1, -n])) + [n, -n - 1]:
+            out.append(("add", new, (i,), "scalar", T))
+        for idx in idxsets if rich else [(), (n - 1,)]:
+            out.append(("add", new, idx, "bool", T))  # a boolean mask over the points
+        out.append(("add", new, tuple(range(n)), "bool-long", T))  # mask one longer / shorter than the points
+        if n >= 2:  # (numpy accepts a zero-length boolean index on anything)
+            out.append(("add", new, tuple(range(n - 1)), "bool-short", T))
         for nm in names:
             for idx in idxsets if rich else sorted(set([(), (0,), tuple(range(n))])):
                 out.append(("add-existing", nm, idx, "list", T))
+        for idx in (bsets + oob) if rich else [(-1,), (n,)]:
+            out.append(("add-existing", names[0], idx, "list", T))
         for nm in names:
             out.append(("remove", nm, T))
         out.append(("remove-unknown", UNKNOWN, "T"))
@@ -503,6 +530,8 @@ class C15(Check):
                 sizes = range(1, MAX_SIZE + 1)
                 if self.sweep_mode:
                     sizes = sorted(set(n for n in (1, (st["N"] or 2) - 1, st["N"] or 2, (st["N"] or 2) + 1, MAX_SIZE) if 1 <= n <= MAX_SIZE))
+                if kind != "LPUG":
+                    out.append(("size", 0, kind, d, "T"))  # boundary: no point at all (a labelled graph cannot be empty)
                 for n in sizes:
                     out.append(("size", n, kind, d, "T"))
         for kind in KINDS:
@@ -628,13 +657,17 @@ class C15(Check):
         strict = True
         cls = LabelledPointUndirectedGraph
 
-        if kind in ("with", "with-perm", "with-str", "with-unknown"):
+        if kind in ("with", "with-perm", "with-str", "with-unknown", "with-empty", "with-dup"):
             req = op[1]
             arg = req if kind == "with-str" else list(req)
             order = [req] if kind == "with-str" else list(req)
             fn = lambda: g.with_labels(arg)  # noqa
-            if kind == "with-unknown":
-                exp_exc = "any"
+            if kind in ("with-unknown", "with-empty"):
+                exp_exc = "any"  # an empty request selects nothing: a labelled group without labels cannot exist
+            elif kind == "with-dup":
+                order = [l for i, l in enumerate(order) if l not in order[:i]]
+                exp = model.select(order)
+                strict = False  # the same label asked twice is one label; content and determinism only
             else:
                 exp = model.select(order)
                 strict = kind != "with-perm"  # [interp] a permuted request: content and determinism only
@@ -659,10 +692,32 @@ class C15(Check):
                 exp = Model(sel.pts, sel.edges, None)
         elif kind in ("add", "add-existing"):
             idx = list(op[2])
-            arg = idx if op[3] == "list" else np.array(idx, dtype=int)
+            form = op[3]
+            n_ = model.n
+            in_range = all(-n_ <= i < n_ for i in idx)
+            hit = set(i % n_ for i in idx) if in_range else set()
+            mask = tuple(i in hit for i in range(n_))
+            if form == "list":
+                arg = idx
+            elif form == "array":
+                arg = np.array(idx, dtype=np.int64)
+            elif form == "int32":
+                arg = np.array(idx, dtype=np.int32)
+            elif form == "scalar":
+                arg = int(idx[0])
+            elif form == "bool":
+                arg = np.array(mask, dtype=bool)
+            elif form in ("bool-long", "bool-short"):
+                arg = np.ones(n_ + (1 if form == "bool-long" else -1), dtype=bool)
+                in_range = False
+            else:
+                raise HarnessError("unknown index form %r" % (op,))
             fn = lambda: g.add_label(op[1], arg)  # noqa
-            mask = tuple(i in idx for i in range(model.n))
-            if kind == "add":
+            icls = "oob" if not in_range else "empty" if not idx else "negative" if all(i < 0 for i in idx) else "mixed" if any(i < 0 for i in idx) else "repeated" if len(hit) < len(idx) else "plain"
+            self.note("add-form:%s-%s" % (form, icls))
+            if not in_range:
+                exp_exc = IndexError  # one past either end of the index range / a mask of another length
+            elif kind == "add":
                 exp = Model(model.pts, model.edges, list(model.labels) + [(op[1], mask)])
             else:
                 # an existing name: that mask is replaced in place (order kept); a replacement that leaves a point
@@ -670,6 +725,8 @@ class C15(Check):
                 exp = Model(model.pts, model.edges, [(l, mask if l == op[1] else m) for l, m in model.labels])
                 if not exp.covered(exp.labels):
                     exp, exp_exc = None, ValueError
+            if not in_range:
+                exp = None
         elif kind in ("remove", "remove-unknown"):
             fn = lambda: g.remove_label(op[1])  # noqa
             if kind == "remove-unknown":
@@ -754,6 +811,8 @@ class C15(Check):
                 out, exc = None, e
             if n != N:
                 self.note("size:rejected" if isinstance(exc, LabellingError) else "size:wrong-size-other")
+                if n == 0 and isinstance(exc, LabellingError):
+                    self.note("size:zero-points-rejected")
                 if verify and not isinstance(exc, LabellingError):
                     fails.append(Failure("size", "wrong-size-not-rejected" if exc is None else "wrong-size-not-LabellingError", "%s(%s %dx%d), expected size %s: %s" % (name, ik, n, d, N, "accepted" if exc is None else repr(exc))))
             else:
@@ -961,6 +1020,24 @@ class C15(Check):
             "mapping:labelled-graph",
             "via-labeller:ok",
             "hashseed:root-digests-identical",
+            "with-dup:ok-3pts-2labels",
+            "add-form:list-negative",
+            "add-form:list-mixed",
+            "add-form:list-repeated",
+            "add-form:list-empty",
+            "add-form:list-oob",
+            "add-form:array-negative",
+            "add-form:array-oob",
+            "add-form:int32-negative",
+            "add-form:scalar-negative",
+            "add-form:scalar-oob",
+            "add-form:bool-plain",
+            "add-form:bool-empty",
+            "add-form:bool-long-oob",
+            "add-form:bool-short-oob",
+            "add:refused-IndexError",
+            "add-existing:refused-IndexError",
+            "size:zero-points-rejected",
             "chain:copy",
             "chain:add-existing",
             "chain:add-new",
@@ -975,6 +1052,8 @@ class C15(Check):
             out.append("no permuted with_labels request was answered")
         if not any(k.startswith("without:refused-") for k in notes):
             out.append("removing every label was never attempted")
+        if not any(k.startswith("with-empty:refused-") and not k.endswith("NOT") for k in notes):
+            out.append("an empty with_labels request was never refused")
         if not any(k.startswith("with-unknown:refused-") and not k.endswith("NOT") for k in notes):
             out.append("no unknown label was ever refused")
         if notes.get("labeller:root", 0) != N_LABELLERS:
@@ -1025,6 +1104,7 @@ class C15(Check):
             "depth 2 (thorough) chains operations on all variant A roots with n <= 3; deeper chains are not explored",
             "variant C (label names 'brow', 'eyebrow', 'eye': substrings of one another) is built for n <= 3 with the path edge set",
             "read-derive-read chains (read a label, derive by copy / add_label / remove_label / affine apply / in-place point edit, read again): quick on the path roots of variants A and C, thorough on every variant A root with n <= 3 and the variant C roots; not repeated in the hash-seed sweep",
+            "add_label index forms are those numpy's mask[indices] = True accepts on the unchanged tree: list, int64 / int32 array, python int, boolean mask of the points' length; negative indices count from the end, one past either end (or a mask of another length) must raise IndexError; tuples are not letters (numpy reads a tuple as a multi-dimensional index: (0, 2) raises, () labels every point)",
             "[interp] a permuted with_labels request must give the right content deterministically; its label order is not judged",
             "[interp] without_labels ignoring an unknown label, and any request that selects no point raising, are accepted",
             "add_label with an existing name: the mask is replaced in place, refused (ValueError) iff a point would be left without a label (D27, fixed)",
